@@ -150,6 +150,9 @@ def check_param_maps(chk, prog, env, model):
         n += 1
         it = Interp(prog, PARSE, model=model)
         r = it.run('ec_crv_to_ossl_name', [Str(crv)])
+        if any(not isinstance(rv, Str) for s, rv in r):
+            from interp import Unsupported
+            raise Unsupported('ec_crv_to_ossl_name(%r) does not evaluate to a concrete string: %s' % (crv, [repr(rv)[:60] for s, rv in r][:2]))
         outs = set(rv.text() if isinstance(rv, Str) else repr(rv) for s, rv in r)
         if outs != {want}:
             bad += 1
